@@ -502,7 +502,7 @@ fn header__roundtrip_authentication_and_secret() {
     let ok = cc.generate_user_secret_key(&mut msk, &ap("SEC::TOP && DPT::FIN")).unwrap();
     let ko = cc.generate_user_secret_key(&mut msk, &ap("DPT::HR")).unwrap();
     let metas: Vec<Option<Vec<u8>>> = vec![None, Some(vec![]), Some(vec![7]), Some(vec![1; 16]), Some((0..33).collect())];
-    let aads: Vec<Option<Vec<u8>>> = vec![None, Some(vec![]), Some(b"aad".to_vec())];
+    let aads: Vec<Option<Vec<u8>>> = vec![None, Some(vec![]), Some(b"aad".to_vec()), Some(vec![0]), Some(vec![1])];
     let mut n = 0u64;
     for m in &metas {
         for a in &aads {
@@ -524,6 +524,13 @@ fn header__roundtrip_authentication_and_secret() {
                     let cut = EncryptedHeader { encapsulation: hdr.encapsulation.clone(), encrypted_metadata: Some(ctx[..t].to_vec()) };
                     let r = std::panic::catch_unwind(std::panic::AssertUnwindSafe(|| cut.decrypt(&cc, &ok, a.as_deref())));
                     assert!(matches!(r, Ok(Err(_))), "C12/C14: encrypted metadata truncated to {t} bytes must yield an error, never a panic or data");
+                    if t > 0 {
+                        // the same truncated header travelling in serialized form (t = 0 is the absent / empty wire value)
+                        let wire = EncryptedHeader::deserialize(&cut.serialize().unwrap()).unwrap();
+                        assert!(wire == cut, "C13: a header whose encrypted metadata has {t} bytes does not survive a serialization round-trip");
+                        let r = std::panic::catch_unwind(std::panic::AssertUnwindSafe(|| wire.decrypt(&cc, &ok, a.as_deref())));
+                        assert!(matches!(r, Ok(Err(_))), "C12/C14: a deserialized header whose encrypted metadata was truncated to {t} bytes must yield an error, got {r:?}");
+                    }
                     n += 1;
                 }
                 for pos in 0..ctx.len() {
@@ -537,7 +544,16 @@ fn header__roundtrip_authentication_and_secret() {
                 use cosmian_crypto_core::{Dem, FixedSizeCBytes, Instantiable, Nonce, SymmetricKey};
                 let key = SymmetricKey::<32>::try_from_bytes(*secret.clone()).unwrap_or_else(|_| panic!("key"));
                 let nonce = Nonce::try_from_slice(&ctx[..12]).unwrap();
-                assert!(Aes256Gcm::new(&key).decrypt(&nonce, &ctx[12..], a.as_deref()).is_err(), "C16: the metadata encryption key must differ from the secret handed to the caller");
+                assert!(Aes256Gcm::new(&key).decrypt(&nonce, &ctx[12..], a.as_deref()).is_err(), "C16: the metadata encryption key must differ from the secret handed to the caller (authentication data {a:?})");
+                // both derive from the encapsulated seed with the fixed, distinct labels of the pinned wire format,
+                // whatever the authentication data: metadata key = KDF(seed, 0x00), caller's secret = KDF(seed, 0x01)
+                let seed = cc.decaps(&ok, &hdr.encapsulation).unwrap().expect("C01: authorized");
+                let mk = SymmetricKey::<32>::derive(&seed, &[0u8]).unwrap_or_else(|_| panic!("kdf"));
+                let got = Aes256Gcm::new(&mk).decrypt(&nonce, &ctx[12..], a.as_deref());
+                assert!(got.as_ref().ok() == m.as_ref(), "C16/C13: the metadata must be encrypted under KDF(seed, 0x00) whatever the authentication data ({a:?}): the key must stay independent of caller input and distinct from the caller's secret KDF(seed, 0x01)");
+                let mut s1 = Secret::<32>::default();
+                cosmian_crypto_core::kdf256!(&mut *s1, &*seed, &[1u8]);
+                assert!(s1 == secret, "C16/C13: the secret handed to the caller is KDF(seed, 0x01)");
             }
             // wire format: absent and empty metadata are the same value
             let bytes = hdr.serialize().unwrap();
@@ -923,7 +939,7 @@ fn cc_rights(u: &str) -> BTreeSet<Vec<u8>> {
     rights_of(&msk.access_structure, u, true)
 }
 
-// @obl props=C08,C09,C10 tier=quick fn=core::primitives::refresh shape="issued keys (1-2 rights, 1-2 revisions, classic and hybridized): rights removed / duplicated / reordered / renamed, secrets moved between rights and chains, flavour changed, id altered, signature stripped / altered, key of another master key, splice of two keys"
+// @obl props=C08,C09,C10,C17 tier=quick fn=core::primitives::refresh shape="issued keys (1-2 rights, 1-2 revisions, classic and hybridized): rights removed / duplicated / reordered / renamed, secrets moved between rights and chains, flavour changed, id altered, signature stripped / altered, key of another master key, splice of two keys"
 #[test]
 fn signature__structural_tampering_is_rejected() {
     let cc = Covercrypt::default();
@@ -972,7 +988,8 @@ fn signature__structural_tampering_is_rejected() {
         for keep in [true, false] {
             let before = (m.serialize().unwrap().to_vec(), msk.serialize().unwrap().to_vec());
             let r = cc.refresh_usk(&mut msk, m, keep);
-            assert!(r.is_err(), "C08/C09: a user key with {name} is accepted for refresh (keep = {keep})");
+            let tag = if name.starts_with("identifier") { "C08/C09/C17" } else { "C08/C09" };
+            assert!(r.is_err(), "{tag}: a user key with {name} is accepted for refresh (keep = {keep}){}", if name.starts_with("identifier") { ": the re-issued key shares its identifier with another issued key" } else { "" });
             assert!((m.serialize().unwrap().to_vec(), msk.serialize().unwrap().to_vec()) == before, "C08/C10: a refused refresh ({name}) modified the user key or the master key");
             n += 1;
         }
